@@ -15,7 +15,7 @@ def build(ctx):
 def run(ctx):
     exes = build(ctx)
     th = ctx.tier == "thorough"
-    ctx.fan(exes["h_table"], "c01", 40000 if th else 3000, ["--aux", exes["mtbl_dump"]], timeout=120)
+    ctx.fan(exes["h_table"], "c01", 40000 if th else 3000, ["--aux", exes["mtbl_dump"]], timeout=120, closed_stdin_every=5)
     s = ctx.stats
     ctx.assumptions += ["oracle = the generated strictly increasing sequence itself (sorted with the harness's own comparator)",
                         "block_restart_interval 0 and keys/values >= 4 GiB are outside the quantifier and not generated"]
